@@ -142,6 +142,18 @@ def run_once(ctx):
         if not ok:
             res.findings.append(Finding("boot:cli-override:" + label, "command line option had no effect: " + label,
                                         {"engine": "boot"}))
+    # (g) the two keep-alive settings each govern their own interval (the rest of the keep-alive behaviour is C17's)
+    tp = boot.timing_probe(binary, hooks)
+    res.extra["timing_probe"] = [t[1] for t in tp if t[0] == "ok"]
+    for kind, detail in tp:
+        res.evaluations += 1
+        if kind == "inconclusive":
+            res.inconclusive += 1
+            res.inconclusive_notes.append(detail)
+        elif kind != "ok":
+            res.findings.append(Finding("boot:documented-key-without-effect:" + kind, detail, {"engine": "boot"}))
+        else:
+            res.distinct.add("timing:%d,%d" % detail[:2])
     # (e) MOTD / welcome burst framing
     for m in boot.motd_cases(binary, hooks):
         res.evaluations += 1
